@@ -49,7 +49,32 @@ func main() {
 	known := flag.String("known", "/verif/known_findings.json", "known findings file")
 	timeout := flag.Int("timeout", 0, "solver timeout seconds (default by tier)")
 	list := flag.Bool("list", false, "list functions")
+	oracle := flag.String("oracle", "", "run one bounded reference search (queue|pool|list|buf|layout) on the real code of -repo and exit")
 	flag.Parse()
+	if *oracle != "" {
+		rep := map[string]string{"queue": "(*queue).put", "pool": "(*streamPool).pop", "list": "(*bufferList).pop", "buf": "(*linkedBuffer).ReadBytes", "layout": "mappingBufferManager"}[*oracle]
+		if rep == "" {
+			fmt.Fprintln(os.Stderr, "unknown oracle", *oracle)
+			os.Exit(2)
+		}
+		dir, err := os.MkdirTemp(tmpBase(), "govc-")
+		if err != nil {
+			fmt.Fprintln(os.Stderr, err)
+			os.Exit(2)
+		}
+		bad, detail := oracleReplay(&Engine{repo: *repo}, &Obligation{Func: rep, Model: map[string]string{}}, dir)
+		os.RemoveAll(dir)
+		if bad {
+			fmt.Printf("ORACLE-VIOLATED %s: %s\n", *oracle, detail)
+			os.Exit(1)
+		}
+		if !strings.Contains(detail, "REPLAY-NO-VIOLATION") {
+			fmt.Printf("ORACLE-NOT-RUN %s: %s\n", *oracle, detail)
+			os.Exit(2)
+		}
+		fmt.Printf("ORACLE %s: no violation (%s)\n", *oracle, strings.SplitN(detail, "\n", 2)[0])
+		return
+	}
 	if *contracts == "" {
 		*contracts = filepath.Join(*repo, "contracts_verif.go")
 	}
